@@ -23,10 +23,27 @@ class NotPure(Exception):
     """raised while attempting the pure (non-monadic) translation of a function"""
 
 
+class AbortPure(Exception):
+    """a function that is being tried as a pure definition turned out to be (mutually) recursive"""
+
+    def __init__(self, item):
+        self.item = item
+        Exception.__init__(self, 'abort pure attempt')
+
+
 def lean_ident(name):
     if name in LEAN_RESERVED:
         return name + '_'
     return name
+
+
+def lean_char(raw):
+    """Lean character literal for the raw text between the quotes of a Rust char literal"""
+    if raw in ("\\'", "'"):
+        return "'\\''"
+    if raw.startswith('\\u'):
+        return "(Char.ofNat 0x%s)" % raw[3:-1]
+    return "'" + raw + "'"
 
 
 def lean_str(s):
@@ -112,6 +129,8 @@ class Crate:
         self.methods = {}     # (Owner, name) -> [FnItem]
         self.free = {}        # name -> [FnItem]
         self.structs = {}     # name -> StructItem
+        self.enums = {}       # name -> EnumItem
+        self.consts = {}      # name -> ConstItem
 
     def load(self, rel):
         if rel in self.files:
@@ -119,8 +138,12 @@ class Crate:
         path = os.path.join(self.repo, rel)
         if not os.path.exists(path):
             raise R2LError('source file not found', rel)
-        src, fns, structs = parse_file(path, rel)
+        src, fns, structs, enums, consts = parse_file(path, rel)
         self.files[rel] = (src.split('\n'), fns, structs)
+        for en in enums:
+            self.enums[en.name] = en
+        for c in consts:
+            self.consts[c.name] = c
         for f in fns:
             if f.owner:
                 self.methods.setdefault((f.owner, f.name), []).append(f)
